@@ -618,7 +618,12 @@ def _run_exp(task):
         if out['raised'] is not None:
             post = z3.Not(inr) if out['raised'] in ('ValueError', 'OverflowError') else False
         elif out['kind'] == 'nan':
-            post = z3.Not(inr)
+            # below the smallest member a mode that rounds a positive value upward has a member to go to (the minimum): NaN is wrong there
+            post = z3.And(z3.Not(inr), z3.Not(R < lo)) if (rm in ('RTP', 'RAZ') and task['ov'] == 'OVERFLOW') else z3.Not(inr)
+        elif out['kind'] == 'fin' and rm in ('RTZ', 'RTN') and task['ov'] == 'OVERFLOW':
+            # toward zero there is no member below the minimum: the minimum (which lies above the operand) is not a correct result
+            post = z3.And(z3.BoolVal(out['sign'] is False), inr if True else False, out['D'] == R, z3.BoolVal(bool(out['inexact'])) == d['inexact']) if False else \
+                z3.And(z3.BoolVal(out['sign'] is False), z3.Not(R < lo), z3.If(inr, z3.And(out['D'] == R, z3.BoolVal(bool(out['inexact'])) == d['inexact']), z3.And(out['D'] == hi, z3.BoolVal(bool(out['inexact']) and bool(out['overflow'])))))
         elif out['kind'] == 'fin':
             post = z3.And(z3.BoolVal(out['sign'] is False), z3.If(inr, z3.And(out['D'] == R, z3.BoolVal(bool(out['inexact'])) == d['inexact']),
                                                                          # out of range: the bound on the side that was exceeded; the value changed (inexact), and above the top the overflow flag is raised
